@@ -27,7 +27,7 @@ def main(tier):
     exhaustive, rnd = gen_cases(tier, chk.seed)
     corpus = [S.parse1(l) for l in open("corpus/c01.sx")] if __import__("os").path.exists("corpus/c01.sx") else []
     optcorr.run(chk, "opt/corpus", corpus, cfg, optcorr.prop_differs)
-    optcorr.run(chk, "opt/exhaustive", exhaustive, cfg, optcorr.prop_differs)
+    optcorr.run(chk, "opt/exhaustive", exhaustive, cfg, optcorr.prop_differs, share=True)
     optcorr.run(chk, "opt/random-shared", rnd, cfg, optcorr.prop_differs, share=True)
     chk.rule = (
         "bounded-exhaustive: every tree over {&,|,^,~,true,false} and 3 names with <= %d nodes; plus random trees of 7-60 nodes over 5 names with "
@@ -48,9 +48,10 @@ def replay(path):
         print(json.dumps(d, indent=1))
         return 1
     sxp = S.parse1(d["input"])
-    p = lift.lower(sxp)
+    p = lift.lower(sxp, {})
+    st = optcorr.prop_differs.before(p, sxp)
     o = optimize(p)
-    w = optcorr.prop_differs(p, o, sxp)
+    w = optcorr.prop_differs.after(st, p, o, sxp)
     print("input    :", d["input"])
     print("optimized:", repr(o))
     print("differs  :", w)
